@@ -1343,8 +1343,10 @@ impl<F: Function> ZeroDivisorGuard<F> {
         match data_type {
             DataType::Integer(i) => i.contains(&0),
             DataType::Float(f) => f.contains(&0.),
+            DataType::Boolean(b) => b.contains(&false),
             DataType::Optional(o) => Self::may_be_zero(o.data_type()),
-            _ => false,
+            // Other types (text...) are converted before the division: nothing is known
+            _ => true,
         }
     }
 }
